@@ -1,0 +1,40 @@
+//go:build verif
+
+package proxy
+
+import (
+	"github.com/robinbraemer/event"
+
+	"go.minekube.com/gate/pkg/edition/java/proxy/internal/resourcepack"
+)
+
+// Verification hooks for property C27 (resource-pack handlers). Add-only, no logic: the package
+// pkg/edition/java/proxy/internal/resourcepack is Go-internal, so the types and the constructor the
+// harness needs are re-exported here.
+
+type (
+	// C27Handler is resourcepack.Handler.
+	C27Handler = resourcepack.Handler
+	// C27Player is the player interface consumed by the handlers.
+	C27Player = resourcepack.Player
+	// C27Info is resourcepack.Info.
+	C27Info = resourcepack.Info
+	// C27ResponseBundle is resourcepack.ResponseBundle.
+	C27ResponseBundle = resourcepack.ResponseBundle
+	// C27BundleDelimiterHandler is resourcepack.BundleDelimiterHandler.
+	C27BundleDelimiterHandler = resourcepack.BundleDelimiterHandler
+	// C27StatusEvent is resourcepack.PlayerResourcePackStatusEvent.
+	C27StatusEvent = resourcepack.PlayerResourcePackStatusEvent
+	// C27Origin is resourcepack.Origin.
+	C27Origin = resourcepack.Origin
+)
+
+const (
+	C27PluginOnProxyOrigin    = resourcepack.PluginOnProxyOrigin
+	C27DownstreamServerOrigin = resourcepack.DownstreamServerOrigin
+)
+
+// C27NewHandler forwards to resourcepack.NewHandler.
+func C27NewHandler(player C27Player, eventMgr event.Manager) C27Handler {
+	return resourcepack.NewHandler(player, eventMgr)
+}
